@@ -123,10 +123,35 @@ Definition top_class (c0 : cmd) (bin : bytes) (toks : list bytes) (os : list occ
   is_set s_no_binary_name c0 = false /\ is_set s_ignore_errors c = false /\
   no_hyphen_args c = true /\ occurrences c toks = Some os.
 
-(** the run behind a successful [parse_top] on a line of the class *)
-Lemma parse_top_run c0 bin toks os m :
+(** what the theorems below use of a class of lines: the command-line phase followed by the flush of the pending
+    buffer is the fold of [react] over [os] followed by the flush, and every element of [os] is a command-line
+    occurrence of an argument of the command, value-less when the argument takes no value.  [top_class]
+    ([ActionsTokens.occurrences]) and the wide class of ActionsWide.v ([woccurrences]) are instances. *)
+Definition wscanned (c : cmd) (o : occ) : Prop :=
+  In (o_arg o) (c_args c) /\ o_src o = SCmdLine /\ (a_takes_value (o_arg o) = false -> o_raw o = []).
+Definition line_class (c : cmd) (toks : list bytes) (os : list occ) : Prop :=
+  (ids_ok c -> forall fuel', (do s <- Sources.cmdline_phase fuel' c toks ps_new; resolve_pending c s) = fold_flush c os ps_new) /\
+  Forall (wscanned c) os.
+Definition gen_class (c0 : cmd) (bin : bytes) (toks : list bytes) (os : list occ) : Prop :=
   let c := build_self (with_bin c0 bin) in
-  top_class c0 bin toks os ->
+  is_set s_no_binary_name c0 = false /\ is_set s_ignore_errors c = false /\ line_class c toks os.
+
+Lemma scanned_wscanned c o : scanned c o -> wscanned c o.
+Proof.
+  intros [H1 [H2 [_ H4]]]. split; [exact H1|]. split; [exact H2|]. intros TV. rewrite TV in H4. exact H4.
+Qed.
+
+Lemma top_gen c0 bin toks os : top_class c0 bin toks os -> gen_class c0 bin toks os.
+Proof.
+  intros [NB [IE [NH HS]]]. split; [exact NB|]. split; [exact IE|]. split.
+  - intros IDS fuel'. exact (cmdline_phase_occurrences fuel' _ toks os ps_new NH IDS HS eq_refl).
+  - eapply Forall_impl; [|exact (occurrences_scanned _ toks os HS)]. intros o. apply scanned_wscanned.
+Qed.
+
+(** the run behind a successful [parse_top] on a line of the class *)
+Lemma gen_top_run c0 bin toks os m :
+  let c := build_self (with_bin c0 bin) in
+  gen_class c0 bin toks os ->
   parse_top c0 (bin :: toks) = OOk m ->
   exists st st_c st1, assert_app c = true /\
     get_matches_with (S (S (depth c))) c toks ps_new = ROk st /\
@@ -134,12 +159,12 @@ Lemma parse_top_run c0 bin toks os m :
     react_all c os ps_new = ROk st1 /\ ms_sub m = None /\
     (forall g, fm_get g (ms_args m) = fm_get g (mt_args (mt st))).
 Proof.
-  intros c [NB [IE [NH HS]]] HP. rewrite (parse_top_unfold c0 bin toks NB) in HP.
+  intros c [NB [IE [HL HSc]]] HP. rewrite (parse_top_unfold c0 bin toks NB) in HP.
   destruct (do_parse_ok _ _ _ IE HP) as [HV [st [globals [HG HM]]]]. fold c in HG, HM.
   pose proof (Sources.valid_assert_app _ HV) as HA. fold c in HA.
   pose proof (ids_ok_of_assert_app c HA) as IDS.
   destruct (Sources.phase_order _ c toks ps_new st HG) as [st_c [st1 [st2 [EC [E1 [P1 [E2 [P2 [E3 _]]]]]]]]].
-  pose proof (cmdline_phase_occurrences (S (depth c)) c toks os ps_new NH IDS HS eq_refl) as HF.
+  pose proof (HL IDS (S (depth c))) as HF. fold c in HF.
   rewrite EC in HF. cbn [rbind] in HF. rewrite E1 in HF. rewrite fold_flush_clean in HF by reflexivity.
   symmetry in HF.
   destruct (Sources.add_env_frame c st1 st2 P1 E2) as [_ [S2 _]].
@@ -155,9 +180,9 @@ Proof.
   intros g. rewrite HM. apply (fill_single_level _ globals (mt_args (mt st)) g).
 Qed.
 
-Theorem parse_top_occurrences c0 bin toks os m :
+Theorem gen_top_occurrences c0 bin toks os m :
   let c := build_self (with_bin c0 bin) in
-  top_class c0 bin toks os ->
+  gen_class c0 bin toks os ->
   parse_top c0 (bin :: toks) = OOk m ->
   exists st1, react_all c os ps_new = ROk st1 /\ ms_sub m = None /\
     forall a, In a (c_args c) ->
@@ -168,7 +193,7 @@ Theorem parse_top_occurrences c0 bin toks os m :
       end.
 Proof.
   intros c TC HP.
-  destruct (parse_top_run c0 bin toks os m TC HP) as [st [st_c [st1 [HA [HG [EC [E1 [HF [HSub HGet]]]]]]]]].
+  destruct (gen_top_run c0 bin toks os m TC HP) as [st [st_c [st1 [HA [HG [EC [E1 [HF [HSub HGet]]]]]]]]].
   fold c in HA, HG, EC, E1, HF.
   destruct (Sources.assert_app_ids_distinct c HA) as [_ HNG].
   destruct (Sources.phase_order _ c toks ps_new st HG) as [st_c' [st1' [st2 [EC' [E1' [P1 [E2 [P2 [E3 _]]]]]]]]].
@@ -186,7 +211,7 @@ Proof.
     + right. exact (N3 _ _ G2 Ge).
 Qed.
 
-Lemma top_valid c0 bin toks os m : top_class c0 bin toks os -> parse_top c0 (bin :: toks) = OOk m ->
+Lemma top_valid c0 bin toks os m : gen_class c0 bin toks os -> parse_top c0 (bin :: toks) = OOk m ->
   assert_app (build_self (with_bin c0 bin)) = true.
 Proof.
   intros [NB [IE _]] HP. rewrite (parse_top_unfold c0 bin toks NB) in HP.
@@ -194,7 +219,7 @@ Proof.
 Qed.
 
 Lemma scanned_no_clash c i os : assert_app c = true -> (exists a, In a (c_args c) /\ a_id a = i) ->
-  Forall (scanned c) os -> Forall (no_group_clash c i) os.
+  Forall (wscanned c) os -> Forall (no_group_clash c i) os.
 Proof.
   intros HA [a [Ha Ei]] HS. eapply Forall_impl; [|exact HS]. intros o [HIn _]. split.
   - exact (assert_app_group_ids c (o_arg o) HA HIn _).
@@ -202,18 +227,17 @@ Proof.
 Qed.
 
 (** * 5. The master statement at the level of [parse_top]: per argument, the abstract fold *)
-Theorem parse_top_denote c0 bin toks os m a :
+Theorem gen_top_denote c0 bin toks os m a :
   let c := build_self (with_bin c0 bin) in
-  top_class c0 bin toks os -> parse_top c0 (bin :: toks) = OOk m -> In a (c_args c) ->
+  gen_class c0 bin toks os -> parse_top c0 (bin :: toks) = OOk m -> In a (c_args c) ->
   match fold_left (step_abs c (a_id a)) os None with
   | Some g => exists e, fm_get (a_id a) (ms_args m) = Some e /\ m_raw e = g /\ m_source e = Some SCmdLine
   | None => forall e, fm_get (a_id a) (ms_args m) = Some e -> m_source e = Some SEnv \/ m_source e = Some SDefault
   end.
 Proof.
   intros c TC HP Hin. pose proof (top_valid c0 bin toks os m TC HP) as HA. fold c in HA.
-  destruct (parse_top_occurrences c0 bin toks os m TC HP) as [st1 [HF [_ HE]]]. fold c in HF, HE.
-  destruct TC as [_ [_ [_ HS]]]. fold c in HS.
-  pose proof (occurrences_scanned c toks os HS) as HSc.
+  destruct (gen_top_occurrences c0 bin toks os m TC HP) as [st1 [HF [_ HE]]]. fold c in HF, HE.
+  destruct TC as [_ [_ [_ HSc]]]. fold c in HSc.
   pose proof (scanned_no_clash c (a_id a) os HA (ex_intro _ a (conj Hin eq_refl)) HSc) as HNC.
   destruct (react_all_denote c (a_id a) os ps_new st1 wf_m_new eq_refl HNC HF) as [R _].
   change (groups_of (a_id a) (mt ps_new)) with (@None groups) in R. rewrite <- R.
@@ -226,20 +250,20 @@ Qed.
 Definition override_free (c : cmd) (i : id) : Prop :=
   forall b, In b (c_args c) -> a_id b <> i -> overridden c b i = false.
 
-Lemma scanned_unrelated c i o : override_free c i -> scanned c o -> beq (a_id (o_arg o)) i = false -> unrelated c i o.
+Lemma scanned_unrelated c i o : override_free c i -> wscanned c o -> beq (a_id (o_arg o)) i = false -> unrelated c i o.
 Proof.
   intros OF [HIn _] Hb. split; [exact Hb|]. rewrite (OF (o_arg o) HIn); [apply andb_false_r|].
   apply beq_neq. exact Hb.
 Qed.
 
-Lemma scanned_same c a o : assert_app c = true -> In a (c_args c) -> scanned c o ->
+Lemma scanned_same c a o : assert_app c = true -> In a (c_args c) -> wscanned c o ->
   beq (a_id (o_arg o)) (a_id a) = true -> o_arg o = a.
 Proof. intros HA Ha [HIn _] Hb. apply beq_eq in Hb. exact (Spelling.ids_unique c (o_arg o) a HA HIn Ha Hb). Qed.
 
 (** ** Count: min(n, 255) *)
-Theorem parse_top_count c0 bin toks os m a :
+Theorem gen_top_count c0 bin toks os m a :
   let c := build_self (with_bin c0 bin) in
-  top_class c0 bin toks os -> parse_top c0 (bin :: toks) = OOk m -> In a (c_args c) ->
+  gen_class c0 bin toks os -> parse_top c0 (bin :: toks) = OOk m -> In a (c_args c) ->
   count_flag a -> override_free c (a_id a) ->
   let n := count_occ (a_id a) os in
   ((0 < n)%nat -> exists e, fm_get (a_id a) (ms_args m) = Some e /\
@@ -248,13 +272,13 @@ Theorem parse_top_count c0 bin toks os m a :
 Proof.
   intros c TC HP Hin [EA [_ [EDM ENUM]]] OF n.
   pose proof (top_valid c0 bin toks os m TC HP) as HA. fold c in HA.
-  pose proof (parse_top_denote c0 bin toks os m a TC HP Hin) as HD. fold c in HD.
-  destruct TC as [_ [_ [_ HS]]]. fold c in HS. pose proof (occurrences_scanned c toks os HS) as HSc.
+  pose proof (gen_top_denote c0 bin toks os m a TC HP Hin) as HD. fold c in HD.
+  destruct TC as [_ [_ [_ HSc]]]. fold c in HSc.
   assert (TV : a_takes_value a = false) by (unfold a_takes_value; rewrite ENUM; reflexivity).
   assert (HAll : Forall (fun o => (o_arg o = a /\ o_raw o = []) \/ unrelated c (a_id a) o) os).
   { eapply Forall_impl; [|exact HSc]. intros o So. destruct (beq (a_id (o_arg o)) (a_id a)) eqn:Eb.
     - left. pose proof (scanned_same c a o HA Hin So Eb) as E. split; [exact E|].
-      destruct So as [_ [_ [_ Hr]]]. rewrite E, TV in Hr. exact Hr.
+      destruct So as [_ [_ Hr]]. rewrite E in Hr. exact (Hr TV).
     - right. exact (scanned_unrelated c (a_id a) o OF So Eb). }
   change (@None groups) with (enc 0) in HD. rewrite (abs_count c a EA EDM os 0 HAll) in HD.
   fold n in HD. rewrite N.add_0_l in HD. unfold enc in HD.
@@ -264,17 +288,17 @@ Proof.
 Qed.
 
 (** ** Append: all occurrences' values, in order, one group each *)
-Theorem parse_top_append c0 bin toks os m a :
+Theorem gen_top_append c0 bin toks os m a :
   let c := build_self (with_bin c0 bin) in
-  top_class c0 bin toks os -> parse_top c0 (bin :: toks) = OOk m -> In a (c_args c) ->
+  gen_class c0 bin toks os -> parse_top c0 (bin :: toks) = OOk m -> In a (c_args c) ->
   a_get_action a = AAppend -> (forall b, In b (c_args c) -> overridden c b (a_id a) = false) ->
   (0 < count_occ (a_id a) os)%nat ->
   exists e, fm_get (a_id a) (ms_args m) = Some e /\ m_raw e = occ_groups c (a_id a) os /\ m_source e = Some SCmdLine.
 Proof.
   intros c TC HP Hin EA OF Hn.
   pose proof (top_valid c0 bin toks os m TC HP) as HA. fold c in HA.
-  pose proof (parse_top_denote c0 bin toks os m a TC HP Hin) as HD. fold c in HD.
-  destruct TC as [_ [_ [_ HS]]]. fold c in HS. pose proof (occurrences_scanned c toks os HS) as HSc.
+  pose proof (gen_top_denote c0 bin toks os m a TC HP Hin) as HD. fold c in HD.
+  destruct TC as [_ [_ [_ HSc]]]. fold c in HSc.
   assert (HAll : Forall (fun o => (o_arg o = a /\ is_cmdline (o_src o) && overridden c a (a_id a) = false)
                                   \/ unrelated c (a_id a) o) os).
   { eapply Forall_impl; [|exact HSc]. intros o So. destruct (beq (a_id (o_arg o)) (a_id a)) eqn:Eb.
@@ -287,16 +311,16 @@ Proof.
 Qed.
 
 (** ** Set / SetTrue / SetFalse: the last occurrence decides *)
-Theorem parse_top_set_last c0 bin toks os1 o os2 m a :
+Theorem gen_top_set_last c0 bin toks os1 o os2 m a :
   let c := build_self (with_bin c0 bin) in
-  top_class c0 bin toks (os1 ++ o :: os2) -> parse_top c0 (bin :: toks) = OOk m -> In a (c_args c) ->
+  gen_class c0 bin toks (os1 ++ o :: os2) -> parse_top c0 (bin :: toks) = OOk m -> In a (c_args c) ->
   set_family a = true -> o_arg o = a -> Forall (unrelated c (a_id a)) os2 ->
   exists e, fm_get (a_id a) (ms_args m) = Some e /\
     m_raw e = step_self c SCmdLine a (o_vals c o) None /\ m_source e = Some SCmdLine.
 Proof.
   intros c TC HP Hin SF Eo HU.
-  pose proof (parse_top_denote c0 bin toks _ m a TC HP Hin) as HD. fold c in HD.
-  destruct TC as [_ [_ [_ HS]]]. fold c in HS. pose proof (occurrences_scanned c toks _ HS) as HSc.
+  pose proof (gen_top_denote c0 bin toks _ m a TC HP Hin) as HD. fold c in HD.
+  destruct TC as [_ [_ [_ HSc]]]. fold c in HSc.
   assert (So : o_src o = SCmdLine).
   { apply Forall_app in HSc. destruct HSc as [_ HSc]. inversion HSc as [|? ? [_ [S _]]]; subst. exact S. }
   rewrite (abs_last_wins c a os1 o os2 None SF Eo HU) in HD. rewrite So in HD. exact HD.
@@ -304,16 +328,16 @@ Qed.
 
 (** ** Overrides, in either order of appearance: after a command-line occurrence of an argument in
     an override relation with [a] (declared on either side), no earlier occurrence of [a] remains *)
-Theorem parse_top_override c0 bin toks os1 o os2 m a :
+Theorem gen_top_override c0 bin toks os1 o os2 m a :
   let c := build_self (with_bin c0 bin) in
-  top_class c0 bin toks (os1 ++ o :: os2) -> parse_top c0 (bin :: toks) = OOk m -> In a (c_args c) ->
+  gen_class c0 bin toks (os1 ++ o :: os2) -> parse_top c0 (bin :: toks) = OOk m -> In a (c_args c) ->
   beq (a_id (o_arg o)) (a_id a) = false -> overridden c (o_arg o) (a_id a) = true ->
   Forall (fun o' => beq (a_id (o_arg o')) (a_id a) = false) os2 ->
   forall e, fm_get (a_id a) (ms_args m) = Some e -> m_source e = Some SEnv \/ m_source e = Some SDefault.
 Proof.
   intros c TC HP Hin Hb Ho HU.
-  pose proof (parse_top_denote c0 bin toks _ m a TC HP Hin) as HD. fold c in HD.
-  destruct TC as [_ [_ [_ HS]]]. fold c in HS. pose proof (occurrences_scanned c toks _ HS) as HSc.
+  pose proof (gen_top_denote c0 bin toks _ m a TC HP Hin) as HD. fold c in HD.
+  destruct TC as [_ [_ [_ HSc]]]. fold c in HSc.
   assert (So : o_src o = SCmdLine).
   { apply Forall_app in HSc. destruct HSc as [_ HSc]. inversion HSc as [|? ? [_ [S _]]]; subst. exact S. }
   rewrite (abs_override_later_wins c (a_id a) os1 o os2 None Hb So Ho HU) in HD. exact HD.
@@ -322,20 +346,20 @@ Qed.
 (** ** Set-like repeat without self-override: [parse_top] answers ArgumentConflict.
     [os1] = the occurrences before the repeat (they parse: [react_all ... = ROk st]); the argument of [o]
     already holds a command-line entry after them; [o] itself is well-formed (number of values, delimiter). *)
-Theorem parse_top_set_repeat_conflict c0 bin toks os1 o os2 st vals :
+Theorem gen_top_set_repeat_conflict c0 bin toks os1 o os2 st vals :
   let c := build_self (with_bin c0 bin) in
-  top_class c0 bin toks (os1 ++ o :: os2) -> valid (with_bin c0 bin) = true ->
+  gen_class c0 bin toks (os1 ++ o :: os2) -> valid (with_bin c0 bin) = true ->
   react_all c os1 ps_new = ROk st ->
   set_family (o_arg o) = true -> fold_left (step_abs c (a_id (o_arg o))) os1 None <> None ->
   self_override c (o_arg o) = false ->
-  verify_num_args c (o_arg o) (o_raw o) st = ROk tt -> occ_values c (o_arg o) (o_raw o) None = Some vals ->
+  verify_num_args c (o_arg o) (o_raw o) st = ROk tt -> occ_values c (o_arg o) (o_raw o) (o_ti o) = Some vals ->
   exists e, parse_top c0 (bin :: toks) = OErr e /\ e_kind e = EArgumentConflict /\ e_arg e = a_id (o_arg o).
 Proof.
-  intros c [NB [IE [NH HS]]] HV HR SF HPrev SO HVN HOV. fold c in IE, NH, HS.
+  intros c [NB [IE [HL HSc]]] HV HR SF HPrev SO HVN HOV. fold c in IE, HL, HSc.
   pose proof (Sources.valid_assert_app _ HV) as HA. fold c in HA.
   pose proof (ids_ok_of_assert_app c HA) as IDS.
-  pose proof (occurrences_scanned c toks _ HS) as HSc. apply Forall_app in HSc. destruct HSc as [HSc1 HSc2].
-  inversion HSc2 as [|? ? So _]; subst. destruct So as [HIn [Esrc [Eti _]]].
+  apply Forall_app in HSc. destruct HSc as [HSc1 HSc2].
+  inversion HSc2 as [|? ? So _]; subst. destruct So as [HIn [Esrc _]].
   (* the entry is present after os1 *)
   pose proof (scanned_no_clash c (a_id (o_arg o)) os1 HA (ex_intro _ (o_arg o) (conj HIn eq_refl)) HSc1) as HNC.
   destruct (react_all_denote c (a_id (o_arg o)) os1 ps_new st wf_m_new eq_refl HNC HR) as [R [_ PN]].
@@ -344,12 +368,12 @@ Proof.
   { unfold mt_contains, fm_contains. unfold groups_of, get in R.
     destruct (fm_get (a_id (o_arg o)) (mt_args (mt st))); [reflexivity|]. cbn [opt_map] in R. exfalso. exact (HPrev (eq_sym R)). }
   unfold self_override in SO. apply orb_false_iff in SO. destruct SO as [SO1 SO2].
-  destruct (react_core_repeat_conflict c (o_ident o) SCmdLine (o_arg o) (o_raw o) None st vals SF HVN HOV HC SO1 SO2)
+  destruct (react_core_repeat_conflict c (o_ident o) SCmdLine (o_arg o) (o_raw o) (o_ti o) st vals SF HVN HOV HC SO1 SO2)
     as [st' [ER _]].
   assert (HFold : react_all c (os1 ++ o :: os2) ps_new = RErr (mkerr c EArgumentConflict (a_id (o_arg o))) st').
   { rewrite react_all_app, HR. cbn [rbind react_all]. rewrite (react_no_pending _ _ _ _ _ _ _ PN).
-    rewrite Esrc, Eti, ER. reflexivity. }
-  pose proof (cmdline_phase_occurrences (S (depth c)) c toks _ ps_new NH IDS HS eq_refl) as HF.
+    rewrite Esrc, ER. reflexivity. }
+  pose proof (HL IDS (S (depth c))) as HF.
   rewrite fold_flush_clean in HF by reflexivity. rewrite HFold in HF.
   destruct (Sources.phase_order_errors (S (depth c)) c toks ps_new IE) as [P1 [P2 _]].
   assert (HG : get_matches_with (S (S (depth c))) c toks ps_new = RErr (mkerr c EArgumentConflict (a_id (o_arg o))) st').
@@ -363,17 +387,17 @@ Qed.
 
 (** ** Defaults only fill absent arguments: an argument without a (remaining) command-line occurrence,
     without environment variable and without conditional defaults, holds exactly its default *)
-Theorem parse_top_default c0 bin toks os m a :
+Theorem gen_top_default c0 bin toks os m a :
   let c := build_self (with_bin c0 bin) in
-  top_class c0 bin toks os -> parse_top c0 (bin :: toks) = OOk m -> In a (c_args c) ->
+  gen_class c0 bin toks os -> parse_top c0 (bin :: toks) = OOk m -> In a (c_args c) ->
   fold_left (step_abs c (a_id a)) os None = None ->
   a_env a = None -> a_default_ifs a = [] -> a_default a <> [] -> a_delim a = None ->
   exists e, fm_get (a_id a) (ms_args m) = Some e /\ m_raw e = [a_default a] /\ m_source e = Some SDefault.
 Proof.
   intros c TC HP Hin HFold HEnv HIfs HDef HDel.
-  destruct (parse_top_run c0 bin toks os m TC HP) as [st [st_c [st1 [HA [HG [EC [E1 [HF [_ HGet]]]]]]]]].
+  destruct (gen_top_run c0 bin toks os m TC HP) as [st [st_c [st1 [HA [HG [EC [E1 [HF [_ HGet]]]]]]]]].
   fold c in HA, HG, EC, E1, HF.
-  destruct TC as [_ [_ [_ HS]]]. fold c in HS. pose proof (occurrences_scanned c toks os HS) as HSc.
+  destruct TC as [_ [_ [_ HSc]]]. fold c in HSc.
   pose proof (scanned_no_clash c (a_id a) os HA (ex_intro _ a (conj Hin eq_refl)) HSc) as HNC.
   destruct (react_all_denote c (a_id a) os ps_new st1 wf_m_new eq_refl HNC HF) as [R _].
   change (groups_of (a_id a) (mt ps_new)) with (@None groups) in R. rewrite HFold in R.
@@ -400,9 +424,9 @@ Proof.
 Qed.
 
 (** ** SetTrue / SetFalse: the flag's truth value when given (last occurrence), the opposite default when absent *)
-Theorem parse_top_flag c0 bin toks os m a b :
+Theorem gen_top_flag c0 bin toks os m a b :
   let c := build_self (with_bin c0 bin) in
-  top_class c0 bin toks os -> parse_top c0 (bin :: toks) = OOk m -> In a (c_args c) ->
+  gen_class c0 bin toks os -> parse_top c0 (bin :: toks) = OOk m -> In a (c_args c) ->
   a_get_action a = flag_action b -> a_takes_value a = false -> a_delim a = None ->
   a_default_missing a = [flag_value b] -> a_default a = [flag_value (negb b)] ->
   (forall os1 o os2, os = os1 ++ o :: os2 -> o_arg o = a -> Forall (unrelated c (a_id a)) os2 ->
@@ -413,17 +437,17 @@ Proof.
   intros c TC HP Hin EA TV HDel HDM HDef. split.
   - intros os1 o os2 Eos Eo HU. subst os.
     assert (SF : set_family a = true) by (unfold set_family; rewrite EA; destruct b; reflexivity).
-    destruct (parse_top_set_last c0 bin toks os1 o os2 m a TC HP Hin SF Eo HU) as [e [Ge [Re Se]]]. fold c in Re.
+    destruct (gen_top_set_last c0 bin toks os1 o os2 m a TC HP Hin SF Eo HU) as [e [Ge [Re Se]]]. fold c in Re.
     exists e. split; [exact Ge|]. split; [|exact Se]. rewrite Re.
-    destruct TC as [_ [_ [_ HS]]]. fold c in HS. pose proof (occurrences_scanned c toks _ HS) as HSc.
-    apply Forall_app in HSc. destruct HSc as [_ HSc]. inversion HSc as [|? ? [_ [_ [Eti Hr]]] _]; subst.
-    rewrite TV in Hr. unfold o_vals. rewrite Hr.
+    destruct TC as [_ [_ [_ HSc]]]. fold c in HSc.
+    apply Forall_app in HSc. destruct HSc as [_ HSc]. inversion HSc as [|? ? [_ [_ Hr]] _]; subst.
+    unfold o_vals. rewrite (Hr TV).
     rewrite (occ_values_dmissing c (o_arg o) (o_ti o) HDel) by (rewrite HDM; discriminate).
     cbn [opt_default]. rewrite HDM. unfold step_self. rewrite EA. destruct b; reflexivity.
   - intros Hn HEnv HIfs.
     pose proof (fold_absent c (a_id a) os (count_occ_zero (a_id a) os Hn)) as HFold.
     assert (HDne : a_default a <> []) by (rewrite HDef; discriminate).
-    destruct (parse_top_default c0 bin toks os m a TC HP Hin HFold HEnv HIfs HDne HDel) as [e [Ge [Re Se]]].
+    destruct (gen_top_default c0 bin toks os m a TC HP Hin HFold HEnv HIfs HDne HDel) as [e [Ge [Re Se]]].
     exists e. rewrite Re, HDef. auto.
 Qed.
 
@@ -439,6 +463,110 @@ Lemma no_overrides_dec c i :
 Proof.
   intros H b Hb. rewrite forallb_forall in H. specialize (H b Hb). destruct (overridden c b i); [discriminate H|reflexivity].
 Qed.
+
+(** * 5b. The same statements for the class [top_class] of ActionsTokens.v *)
+Lemma parse_top_run c0 bin toks os m :
+  let c := build_self (with_bin c0 bin) in
+  top_class c0 bin toks os ->
+  parse_top c0 (bin :: toks) = OOk m ->
+  exists st st_c st1, assert_app c = true /\
+    get_matches_with (S (S (depth c))) c toks ps_new = ROk st /\
+    Sources.cmdline_phase (S (depth c)) c toks ps_new = ROk st_c /\ resolve_pending c st_c = ROk st1 /\
+    react_all c os ps_new = ROk st1 /\ ms_sub m = None /\
+    (forall g, fm_get g (ms_args m) = fm_get g (mt_args (mt st))).
+Proof. intros c TC. exact (gen_top_run c0 bin toks os m (top_gen _ _ _ _ TC)). Qed.
+
+Theorem parse_top_occurrences c0 bin toks os m :
+  let c := build_self (with_bin c0 bin) in
+  top_class c0 bin toks os ->
+  parse_top c0 (bin :: toks) = OOk m ->
+  exists st1, react_all c os ps_new = ROk st1 /\ ms_sub m = None /\
+    forall a, In a (c_args c) ->
+      match get (a_id a) (mt st1) with
+      | Some e => fm_get (a_id a) (ms_args m) = Some e /\ m_source e = Some SCmdLine
+      | None => forall e, fm_get (a_id a) (ms_args m) = Some e ->
+                  m_source e = Some SEnv \/ m_source e = Some SDefault
+      end.
+Proof. intros c TC. exact (gen_top_occurrences c0 bin toks os m (top_gen _ _ _ _ TC)). Qed.
+
+Theorem parse_top_denote c0 bin toks os m a :
+  let c := build_self (with_bin c0 bin) in
+  top_class c0 bin toks os -> parse_top c0 (bin :: toks) = OOk m -> In a (c_args c) ->
+  match fold_left (step_abs c (a_id a)) os None with
+  | Some g => exists e, fm_get (a_id a) (ms_args m) = Some e /\ m_raw e = g /\ m_source e = Some SCmdLine
+  | None => forall e, fm_get (a_id a) (ms_args m) = Some e -> m_source e = Some SEnv \/ m_source e = Some SDefault
+  end.
+Proof. intros c TC. exact (gen_top_denote c0 bin toks os m a (top_gen _ _ _ _ TC)). Qed.
+
+Theorem parse_top_count c0 bin toks os m a :
+  let c := build_self (with_bin c0 bin) in
+  top_class c0 bin toks os -> parse_top c0 (bin :: toks) = OOk m -> In a (c_args c) ->
+  count_flag a -> override_free c (a_id a) ->
+  let n := count_occ (a_id a) os in
+  ((0 < n)%nat -> exists e, fm_get (a_id a) (ms_args m) = Some e /\
+       m_raw e = [[n_to_dec (N.min (N.of_nat n) 255)]] /\ m_source e = Some SCmdLine) /\
+  (n = 0%nat -> forall e, fm_get (a_id a) (ms_args m) = Some e -> m_source e = Some SEnv \/ m_source e = Some SDefault).
+Proof. intros c TC. exact (gen_top_count c0 bin toks os m a (top_gen _ _ _ _ TC)). Qed.
+
+Theorem parse_top_append c0 bin toks os m a :
+  let c := build_self (with_bin c0 bin) in
+  top_class c0 bin toks os -> parse_top c0 (bin :: toks) = OOk m -> In a (c_args c) ->
+  a_get_action a = AAppend -> (forall b, In b (c_args c) -> overridden c b (a_id a) = false) ->
+  (0 < count_occ (a_id a) os)%nat ->
+  exists e, fm_get (a_id a) (ms_args m) = Some e /\ m_raw e = occ_groups c (a_id a) os /\ m_source e = Some SCmdLine.
+Proof. intros c TC. exact (gen_top_append c0 bin toks os m a (top_gen _ _ _ _ TC)). Qed.
+
+Theorem parse_top_set_last c0 bin toks os1 o os2 m a :
+  let c := build_self (with_bin c0 bin) in
+  top_class c0 bin toks (os1 ++ o :: os2) -> parse_top c0 (bin :: toks) = OOk m -> In a (c_args c) ->
+  set_family a = true -> o_arg o = a -> Forall (unrelated c (a_id a)) os2 ->
+  exists e, fm_get (a_id a) (ms_args m) = Some e /\
+    m_raw e = step_self c SCmdLine a (o_vals c o) None /\ m_source e = Some SCmdLine.
+Proof. intros c TC. exact (gen_top_set_last c0 bin toks os1 o os2 m a (top_gen _ _ _ _ TC)). Qed.
+
+Theorem parse_top_override c0 bin toks os1 o os2 m a :
+  let c := build_self (with_bin c0 bin) in
+  top_class c0 bin toks (os1 ++ o :: os2) -> parse_top c0 (bin :: toks) = OOk m -> In a (c_args c) ->
+  beq (a_id (o_arg o)) (a_id a) = false -> overridden c (o_arg o) (a_id a) = true ->
+  Forall (fun o' => beq (a_id (o_arg o')) (a_id a) = false) os2 ->
+  forall e, fm_get (a_id a) (ms_args m) = Some e -> m_source e = Some SEnv \/ m_source e = Some SDefault.
+Proof. intros c TC. exact (gen_top_override c0 bin toks os1 o os2 m a (top_gen _ _ _ _ TC)). Qed.
+
+Theorem parse_top_set_repeat_conflict c0 bin toks os1 o os2 st vals :
+  let c := build_self (with_bin c0 bin) in
+  top_class c0 bin toks (os1 ++ o :: os2) -> valid (with_bin c0 bin) = true ->
+  react_all c os1 ps_new = ROk st ->
+  set_family (o_arg o) = true -> fold_left (step_abs c (a_id (o_arg o))) os1 None <> None ->
+  self_override c (o_arg o) = false ->
+  verify_num_args c (o_arg o) (o_raw o) st = ROk tt -> occ_values c (o_arg o) (o_raw o) None = Some vals ->
+  exists e, parse_top c0 (bin :: toks) = OErr e /\ e_kind e = EArgumentConflict /\ e_arg e = a_id (o_arg o).
+Proof.
+  intros c TC HV HR SF HPrev SO HVN HOV.
+  assert (Eti : o_ti o = None).
+  { destruct TC as [_ [_ [_ HS]]]. pose proof (occurrences_scanned _ toks _ HS) as HSc.
+    apply Forall_app in HSc. destruct HSc as [_ HSc]. inversion HSc as [|? ? [_ [_ [E _]]] _]; subst. exact E. }
+  rewrite <- Eti in HOV.
+  exact (gen_top_set_repeat_conflict c0 bin toks os1 o os2 st vals (top_gen _ _ _ _ TC) HV HR SF HPrev SO HVN HOV).
+Qed.
+
+Theorem parse_top_default c0 bin toks os m a :
+  let c := build_self (with_bin c0 bin) in
+  top_class c0 bin toks os -> parse_top c0 (bin :: toks) = OOk m -> In a (c_args c) ->
+  fold_left (step_abs c (a_id a)) os None = None ->
+  a_env a = None -> a_default_ifs a = [] -> a_default a <> [] -> a_delim a = None ->
+  exists e, fm_get (a_id a) (ms_args m) = Some e /\ m_raw e = [a_default a] /\ m_source e = Some SDefault.
+Proof. intros c TC. exact (gen_top_default c0 bin toks os m a (top_gen _ _ _ _ TC)). Qed.
+
+Theorem parse_top_flag c0 bin toks os m a b :
+  let c := build_self (with_bin c0 bin) in
+  top_class c0 bin toks os -> parse_top c0 (bin :: toks) = OOk m -> In a (c_args c) ->
+  a_get_action a = flag_action b -> a_takes_value a = false -> a_delim a = None ->
+  a_default_missing a = [flag_value b] -> a_default a = [flag_value (negb b)] ->
+  (forall os1 o os2, os = os1 ++ o :: os2 -> o_arg o = a -> Forall (unrelated c (a_id a)) os2 ->
+     exists e, fm_get (a_id a) (ms_args m) = Some e /\ m_raw e = [[flag_value b]] /\ m_source e = Some SCmdLine) /\
+  (count_occ (a_id a) os = 0%nat -> a_env a = None -> a_default_ifs a = [] ->
+     exists e, fm_get (a_id a) (ms_args m) = Some e /\ m_raw e = [[flag_value (negb b)]] /\ m_source e = Some SDefault).
+Proof. intros c TC. exact (gen_top_flag c0 bin toks os m a b (top_gen _ _ _ _ TC)). Qed.
 
 (** * Non-vacuity: every theorem above applied to a concrete command and concrete lines *)
 Module TopExamples.
@@ -590,24 +718,50 @@ Definition get_flag_view (m : matches) (i : id) : option bool :=
   | None => None
   end.
 
+Theorem gen_top_get_count c0 bin toks os m a :
+  let c := build_self (with_bin c0 bin) in
+  gen_class c0 bin toks os -> parse_top c0 (bin :: toks) = OOk m -> In a (c_args c) ->
+  count_flag a -> override_free c (a_id a) ->
+  a_default a = [[48]] -> a_env a = None -> a_default_ifs a = [] -> a_delim a = None ->
+  get_count_view m (a_id a) = Some (N.min (N.of_nat (count_occ (a_id a) os)) 255).
+Proof.
+  intros c TC HP Hin CF OF HDef HEnv HIfs HDel.
+  destruct (gen_top_count c0 bin toks os m a TC HP Hin CF OF) as [H1 _]. fold c in H1.
+  destruct (count_occ (a_id a) os) as [|k] eqn:En.
+  - pose proof (fold_absent c (a_id a) os (count_occ_zero (a_id a) os En)) as HFold.
+    assert (HDne : a_default a <> []) by (rewrite HDef; discriminate).
+    destruct (gen_top_default c0 bin toks os m a TC HP Hin HFold HEnv HIfs HDne HDel) as [e [Ge [Re _]]].
+    unfold get_count_view, first_value. rewrite Ge, Re, HDef. reflexivity.
+  - destruct (H1 ltac:(lia)) as [e [Ge [Re _]]].
+    unfold get_count_view, first_value. rewrite Ge, Re. cbn [concat app].
+    rewrite (dec_roundtrip (N.min (N.of_nat (S k)) 255)) by lia. rewrite N2Z.id. reflexivity.
+Qed.
+
+Theorem gen_top_get_flag c0 bin toks os m a b :
+  let c := build_self (with_bin c0 bin) in
+  gen_class c0 bin toks os -> parse_top c0 (bin :: toks) = OOk m -> In a (c_args c) ->
+  a_get_action a = flag_action b -> a_takes_value a = false -> a_delim a = None ->
+  a_default_missing a = [flag_value b] -> a_default a = [flag_value (negb b)] ->
+  (forall os1 o os2, os = os1 ++ o :: os2 -> o_arg o = a -> Forall (unrelated c (a_id a)) os2 ->
+     get_flag_view m (a_id a) = Some b) /\
+  (count_occ (a_id a) os = 0%nat -> a_env a = None -> a_default_ifs a = [] ->
+     get_flag_view m (a_id a) = Some (negb b)).
+Proof.
+  intros c TC HP Hin EA TV HDel HDM HDef.
+  destruct (gen_top_flag c0 bin toks os m a b TC HP Hin EA TV HDel HDM HDef) as [H1 H2]. fold c in H1. split.
+  - intros os1 o os2 E1 E2 E3. destruct (H1 os1 o os2 E1 E2 E3) as [e [Ge [Re _]]].
+    unfold get_flag_view, first_value. rewrite Ge, Re. destruct b; reflexivity.
+  - intros E1 E2 E3. destruct (H2 E1 E2 E3) as [e [Ge [Re _]]].
+    unfold get_flag_view, first_value. rewrite Ge, Re. destruct b; reflexivity.
+Qed.
+
 Theorem parse_top_get_count c0 bin toks os m a :
   let c := build_self (with_bin c0 bin) in
   top_class c0 bin toks os -> parse_top c0 (bin :: toks) = OOk m -> In a (c_args c) ->
   count_flag a -> override_free c (a_id a) ->
   a_default a = [[48]] -> a_env a = None -> a_default_ifs a = [] -> a_delim a = None ->
   get_count_view m (a_id a) = Some (N.min (N.of_nat (count_occ (a_id a) os)) 255).
-Proof.
-  intros c TC HP Hin CF OF HDef HEnv HIfs HDel.
-  destruct (parse_top_count c0 bin toks os m a TC HP Hin CF OF) as [H1 _]. fold c in H1.
-  destruct (count_occ (a_id a) os) as [|k] eqn:En.
-  - pose proof (fold_absent c (a_id a) os (count_occ_zero (a_id a) os En)) as HFold.
-    assert (HDne : a_default a <> []) by (rewrite HDef; discriminate).
-    destruct (parse_top_default c0 bin toks os m a TC HP Hin HFold HEnv HIfs HDne HDel) as [e [Ge [Re _]]].
-    unfold get_count_view, first_value. rewrite Ge, Re, HDef. reflexivity.
-  - destruct (H1 ltac:(lia)) as [e [Ge [Re _]]].
-    unfold get_count_view, first_value. rewrite Ge, Re. cbn [concat app].
-    rewrite (dec_roundtrip (N.min (N.of_nat (S k)) 255)) by lia. rewrite N2Z.id. reflexivity.
-Qed.
+Proof. intros c TC. exact (gen_top_get_count c0 bin toks os m a (top_gen _ _ _ _ TC)). Qed.
 
 Theorem parse_top_get_flag c0 bin toks os m a b :
   let c := build_self (with_bin c0 bin) in
@@ -618,14 +772,7 @@ Theorem parse_top_get_flag c0 bin toks os m a b :
      get_flag_view m (a_id a) = Some b) /\
   (count_occ (a_id a) os = 0%nat -> a_env a = None -> a_default_ifs a = [] ->
      get_flag_view m (a_id a) = Some (negb b)).
-Proof.
-  intros c TC HP Hin EA TV HDel HDM HDef.
-  destruct (parse_top_flag c0 bin toks os m a b TC HP Hin EA TV HDel HDM HDef) as [H1 H2]. fold c in H1. split.
-  - intros os1 o os2 E1 E2 E3. destruct (H1 os1 o os2 E1 E2 E3) as [e [Ge [Re _]]].
-    unfold get_flag_view, first_value. rewrite Ge, Re. destruct b; reflexivity.
-  - intros E1 E2 E3. destruct (H2 E1 E2 E3) as [e [Ge [Re _]]].
-    unfold get_flag_view, first_value. rewrite Ge, Re. destruct b; reflexivity.
-Qed.
+Proof. intros c TC. exact (gen_top_get_flag c0 bin toks os m a b (top_gen _ _ _ _ TC)). Qed.
 
 Module TypedExamples.
   Import TokExamples TopExamples.
